@@ -35,10 +35,14 @@ struct MixinSecond : Base {
 	bool mixinBeforeDispatch(A && a, Rest && ...) const { rec(2, 0, (int)a, -1); return !g_block2; }
 };
 
+// a mixin that only adds an API function and has no mixinBeforeDispatch hook of its own
+template <typename Base>
+struct MixinHookless : Base { int extraApi() const { return 42; } };
 template <typename Th> struct PolF { using Threading = Th; using Mixins = eventpp::MixinList<eventpp::MixinFilter>; };
+template <typename Th> struct PolHooklessFirst { using Threading = Th; using Mixins = eventpp::MixinList<MixinHookless, eventpp::MixinFilter>; };
 template <typename Th> struct PolF2 { using Threading = Th; using Mixins = eventpp::MixinList<eventpp::MixinFilter, MixinSecond>; };
 
-struct Cfg { int maxFilters = 3; int maxListeners = 2; bool queue = false; bool twoMixins = false; };
+struct Cfg { int maxFilters = 3; int maxListeners = 2; bool queue = false; bool twoMixins = false; const char * sigPrefix = ""; };
 
 // ArgKind: 0 = void(int, Tracked) (by value), 1 = void(int &, Tracked &), 2 = void(const int &, const Tracked &)
 template <int ArgKind> struct Proto;
@@ -111,7 +115,7 @@ struct Harness {
 		else if(i < got.size() && i < want.size() && got[i].kind == want[i].kind && got[i].who == want[i].who && got[i].v != want[i].v) clause = "filter-modification-not-propagated";
 		else if(i < got.size() && i < want.size() && got[i].kind == 0 && want[i].kind == 0) clause = "filter-order";
 		else if(i >= got.size()) clause = "filter-or-listener-skipped";
-		ctx.fail(clause, fmt("%s: observed %s, expected %s", what, obsStr(got).c_str(), obsStr(want).c_str()));
+		ctx.fail(std::string(cfg.sigPrefix) + clause, fmt("%s: observed %s, expected %s", what, obsStr(got).c_str(), obsStr(want).c_str()));
 	}
 	void dispatch(int key, int v) {
 		int pid = nextPayload++;
@@ -390,6 +394,8 @@ static struct Register {
 #endif
 #if SEL(2)
 		addBfsUnit<Harness<eventpp::EventQueue<int, Proto<0>::Sig, PolF<MT> >, 0> >("C12/EventQueue/by-value", 0, cq, 4, 6);
+		{ Cfg ch = c; ch.sigPrefix = "hookless-mixin-first/"; ch.maxFilters = 2;
+		  addBfsUnit<Harness<eventpp::EventDispatcher<int, Proto<0>::Sig, PolHooklessFirst<ST> >, 0> >("C12/EventDispatcher/hookless-mixin-before-filter", 0, ch, 3, 4); }
 #endif
 #if SEL(3)
 		addBfsUnit<Harness<eventpp::EventQueue<int, Proto<2>::Sig, PolF<ST> >, 2> >("C12/EventQueue/const-ref", 0, cq, 4, 5);
